@@ -4,6 +4,7 @@
 From Coq Require Import Extraction ExtrOcamlBasic.
 From Coq Require Import List NArith.
 From JS Require Import Model.Base Model.Shape Model.Sem Model.Subset Model.Merger Model.Infer Model.Api Model.Repr Model.Cost Model.Gen.
+From JS Require Import Model.Lexer Model.Parser Model.Walk Model.TextApi Model.JsonRef Model.ValueCost Model.TextClasses.
 Extraction Language OCaml.
 Set Extraction AccessOpaque.
 Extraction "Model.ml"
@@ -20,4 +21,10 @@ Extraction "Model.ml"
   to_snake to_pascal crc32 hex_upper printable_text shape_name shape_representation
   first_pass render gen_text file_text gen_header header_ok out_path macro_path plain_name plain_dir
   compile_json_m no_write wf_items wf_module good_names decodable names_inj serde_ok c15_class
-  decode_auto erase deser_root reser approx out_path_f14 first_pass_f15 opt_array_ok opt_array_decodes.
+  decode_auto erase deser_root reser approx out_path_f14 first_pass_f15 opt_array_ok opt_array_decodes
+  (* text level *)
+  cfg_now cfg_fixed utf8_encode lex parse_text cst_get children cst_span parse_cst
+  from_str_m from_sources_m is_superset_m is_superset_checked_m accepts
+  ref_json ref_accepts jdepth dup_consistent has_bare_cr render_text
+  vcalls jnodes value_cost_excess
+  ndiags diag_dropped cr_rejected.
